@@ -51,7 +51,23 @@ class SimFS:
         path = _os.fspath(path)
         if isinstance(path, bytes):
             path = path.decode()
-        return posixpath.normpath(posixpath.join(self.cwd, path))
+        a = posixpath.normpath(posixpath.join(self.cwd, path))
+        if path.endswith('/') and a in self.files:
+            return a + '/.'          # 'file/' names nothing (POSIX: ENOTDIR); keep it distinct from the file itself
+        return a
+
+    def path_error(self, a):
+        """The errno POSIX reports before even looking the name up: a component that is a regular file (ENOTDIR), a
+        component longer than NAME_MAX (ENAMETOOLONG).  None if the path is well-formed."""
+        parts = a.split('/')
+        if any(len(c.encode('utf-8', 'replace')) > 255 for c in parts) or len(a) > 4095:
+            return errno.ENAMETOOLONG
+        cur = ''
+        for c in parts[1:-1]:
+            cur += '/' + c
+            if cur in self.files:
+                return errno.ENOTDIR
+        return None
 
     def snapshot(self):
         return dict(self.files), set(self.dirs)
@@ -106,7 +122,7 @@ class SimFS:
         if a in self.dirs:
             return 4096
         if a not in self.files:
-            raise _err(errno.ENOENT, path)
+            raise _err(self.path_error(a) or errno.ENOENT, path)
         size = len(self.files[a])
         if f:
             # TOCTOU: the file changes right after its size was taken
@@ -162,6 +178,9 @@ class SimFS:
     def stat(self, path):
         a = self.abspath(path)
         self._op('stat', a)
+        pe = self.path_error(a)
+        if pe:
+            raise _err(pe, path)
         if a in self.files:
             return _os.stat_result((0o100644, 1, 1, 1, 0, 0, len(self.files[a]), 0, 0, 0))
         if a in self.dirs:
@@ -234,7 +253,7 @@ class SimFS:
             if a in self.dirs:
                 raise _err(errno.EISDIR, file)
             if a not in self.files:
-                raise _err(errno.ENOENT, file)
+                raise _err(self.path_error(a) or errno.ENOENT, file)
             data = self.files[a]
             if binary:
                 return io.BytesIO(data)
